@@ -150,8 +150,12 @@ def case_finite(ctx, i):
                 #  Jordan-Wigner string then extends to the left end of the chain)
                 odd_ok = all(getattr(s_, 'charge_to_JW_parity', None) is not None for s_ in sites)  # (else a documented refusal)
                 term = C8.rand_term(rng, sites, nops=int(rng.integers(1, 4)), even_fermions=bool(rng.random() < 0.6) or not odd_ok)
-                if sum(1 for n_, k_ in term if sites[k_].op_needs_JW(n_)) % 2 == 1:
+                odd_term = sum(1 for n_, k_ in term if sites[k_].op_needs_JW(n_)) % 2 == 1
+                if odd_term:
                     ctx.count('op.apply_local_term_odd_fermions')
+                # documented caveat of the Jordan-Wigner string read off the charges of a virtual leg: "We may loose an overall,
+                # global minus sign in the case that some `B` tensors have non-trivial `qtotal`"
+                sign_free = odd_term and any(np.any(psi.get_B(k_, form=None).qtotal != 0) for k_ in range(L))
                 chinfo = sites[0].leg.chinfo
                 M = dense.term_matrix(sites, term)
                 new = (M @ ref.reshape(-1)).reshape(ref.shape)
@@ -167,8 +171,11 @@ def case_finite(ctx, i):
                 else:
                     psi.apply_local_term(term)
                 ref = new
-                if not np.iscomplexobj(ref) and np.iscomplexobj(new):
-                    ref = new
+                if sign_free:
+                    ctx.count('op.apply_local_term_odd_fermions.global_sign_documented_as_undetermined')
+                    got_ = dense.finite_vector(psi)
+                    if got_.shape == ref.shape and np.linalg.norm(got_ + ref) < np.linalg.norm(got_ - ref):
+                        ref = -ref
                 ctx.count('op.apply_local_term')
             elif op in ('swap_sites', 'permute_sites'):
                 if L < 2:
